@@ -41,7 +41,7 @@ impl<'a> GenCtx<'a> {
             let (a, b) = *rng.pick(&self.class_ranges);
             let i = a + rng.below((b - a) as u64) as usize;
             // sources above 32 KB are for the reference passes and sweeps only
-            if !self.exclude.contains(&self.cat.sources[i].id) && self.cat.sources[i].text.len() <= 64 * 1024 {
+            if !self.exclude.contains(&self.cat.sources[i].id) && self.cat.sources[i].text.len() <= 96 * 1024 {
                 return i;
             }
         }
